@@ -147,6 +147,153 @@ Example C17_example :
                                (Weekly None None [8;8;8;8;8;0;0]) t) 1 10 (2 * DAY) = Ok (4 * DAY).
 Proof. vm_compute. repeat split. Qed.
 
+(* ---- Session 3: calendar expressions as the capacity tables of the schedulers ----
+   The scheduler theorems (C02-C09, C14) assume [cap_nonneg cfg : forall r d, 0 <= cap cfg r d] of an
+   abstract capacity function; the scheduler harness asserts per case that the real calendar's answer
+   is non-negative and does not depend on the time of day.  Both are theorems of the calendar model. *)
+From PJ Require Import Cal.CalendarCap Cal.CalendarCapQ.
+From Coq Require Import QArith.
+Local Open Scope Z_scope.
+
+Section C17_cap.
+Context {num : Type}.
+Variables (nadd nsub nmul ndiv : num -> num -> num) (nzero : num).
+Variable nltb : num -> num -> bool.
+Variable nis0 : num -> bool.
+Variable nle : num -> num -> Prop.
+Notation eval := (eval nadd nsub nmul ndiv nzero nltb nis0).
+Notation units := (units nadd nsub nmul ndiv nzero nltb nis0).
+Notation nn := (nle nzero).
+Notation nonneg_cal := (nonneg_cal nzero nle).
+
+(* what is needed of the numbers (discharged below for Z and for Q; false of binary64: NaN) *)
+Hypothesis nn_zero : nn nzero.
+Hypothesis nn_add : forall a b, nn a -> nn b -> nn (nadd a b).
+Hypothesis nn_mul : forall a b, nn a -> nn b -> nn (nmul a b).
+Hypothesis nn_div : forall a b, nn a -> nn b -> nis0 b = false -> nn (ndiv a b).
+Hypothesis nn_not_neg : forall u, nltb u nzero = false -> nn u.
+
+(* an expression all of whose configured amounts (weekly, dated, fixed units; promoted numbers are
+   fixed leaves) are >= 0 never reports a negative amount.  No condition on divisors is needed: a zero
+   divisor value makes the lookup raise, so it is not [Ok]. *)
+Theorem C17_eval_nonneg : forall c t v, nonneg_cal c -> eval c t = Ok (Some v) -> nn v.
+Proof. exact (eval_nonneg nadd nsub nmul ndiv nzero nltb nis0 nle nn_zero nn_add nn_mul nn_div nn_not_neg). Qed.
+
+Theorem C17_units_nonneg : forall c t v, nonneg_cal c -> units c t = Ok v -> nn v.
+Proof. exact (units_nonneg nadd nsub nmul ndiv nzero nltb nis0 nle nn_zero nn_add nn_mul nn_div nn_not_neg). Qed.
+
+(* every definition the library accepts is such an expression *)
+Theorem C17_accepted_fixed_nonneg : forall u st en c, mk_fixed nzero nltb u st en = Ok c -> nonneg_cal c.
+Proof. exact (mk_fixed_nonneg nzero nltb nle nn_not_neg). Qed.
+
+Theorem C17_accepted_weekly_days_nonneg : forall st en days u c,
+  mk_weekly_days nzero nltb st en days u = Ok c -> nonneg_cal c.
+Proof. exact (mk_weekly_days_nonneg nzero nltb nle nn_zero nn_not_neg). Qed.
+
+Theorem C17_accepted_weekly_dict_nonneg : forall st en m c,
+  mk_weekly_dict nzero nltb st en m = Ok c -> nonneg_cal c.
+Proof. exact (mk_weekly_dict_nonneg nzero nltb nle nn_zero nn_not_neg). Qed.
+
+Theorem C17_accepted_dated_nonneg : forall m c, mk_dated nzero nltb m = Ok c -> nonneg_cal c.
+Proof. exact (mk_dated_nonneg nzero nltb nle nn_not_neg). Qed.
+
+Theorem C17_accepted_set_units_nonneg : forall c0 m c,
+  nonneg_cal c0 -> dated_set nzero nltb c0 m = Ok c -> nonneg_cal c.
+Proof. exact (dated_set_nonneg nzero nltb nle nn_not_neg). Qed.
+
+Theorem C17_accepted_binop_nonneg : forall k a o c,
+  nonneg_cal a -> (forall b, o = OCal b -> nonneg_cal b) ->
+  binop nzero nltb nis0 k a o = Ok c -> nonneg_cal c.
+Proof. exact (binop_nonneg nzero nltb nis0 nle nn_not_neg). Qed.
+
+(* the capacity is a function of the day when no validity bound falls strictly inside a day:
+   start bounds are midnights, end bounds (inclusive in the code) are the last microsecond of a day.
+   No fact about numbers is used. *)
+Theorem C17_day_function : forall c, aligned_cal c -> forall t, eval c t = eval c (day_start t).
+Proof. exact (eval_day_start nadd nsub nmul ndiv nzero nltb nis0). Qed.
+
+Theorem C17_units_day_function : forall c, aligned_cal c -> forall t, units c t = units c (day_start t).
+Proof. exact (units_day_start nadd nsub nmul ndiv nzero nltb nis0). Qed.
+
+Theorem C17_same_day : forall c t t', aligned_cal c -> day_of t = day_of t' -> eval c t = eval c t'.
+Proof. exact (eval_same_day nadd nsub nmul ndiv nzero nltb nis0). Qed.
+
+(* a lookup can raise only through / (ZeroDivisionError): an expression without it always answers *)
+Theorem C17_total : forall c, div_free c -> forall t, exists v, units c t = Ok v.
+Proof. exact (units_total nadd nsub nmul ndiv nzero nltb nis0). Qed.
+
+End C17_cap.
+
+(* instances: exact integers with floor division *)
+Theorem C17_eval_nonneg_Z : forall (c : cal Z) t v,
+  nonneg_cal 0 Z.le c -> eval Z.add Z.sub Z.mul Z.div 0 Z.ltb (Z.eqb 0) c t = Ok (Some v) -> 0 <= v.
+Proof. exact zeval_nonneg. Qed.
+
+Theorem C17_units_nonneg_Z : forall (c : cal Z) t v,
+  nonneg_cal 0 Z.le c -> units Z.add Z.sub Z.mul Z.div 0 Z.ltb (Z.eqb 0) c t = Ok v -> 0 <= v.
+Proof. exact zunits_nonneg. Qed.
+
+(* exact rationals,  x < y := negb (Qle_bool y x),  x == 0 := Qeq_bool x 0 *)
+Theorem C17_eval_nonneg_Q : forall (c : cal Q) t v,
+  nonneg_cal 0%Q Qle c -> eval Qplus Qminus Qmult Qdiv 0%Q qltb qis0 c t = Ok (Some v) -> (0 <= v)%Q.
+Proof. exact qeval_nonneg. Qed.
+
+Theorem C17_units_nonneg_Q : forall (c : cal Q) t v,
+  nonneg_cal 0%Q Qle c -> units Qplus Qminus Qmult Qdiv 0%Q qltb qis0 c t = Ok v -> (0 <= v)%Q.
+Proof. exact qunits_nonneg. Qed.
+
+(* glue to the schedulers: [cap_of_cals cs r d] = what resource r reports at 00:00 of day d.
+   [Sched.Model.cap_nonneg cfg] is literally [forall r d, 0 <= cap cfg r d]. *)
+Theorem C17_cap_nonneg : forall cs : nat -> cal Z,
+  (forall r, nonneg_cal 0 Z.le (cs r)) -> forall r d, 0 <= cap_of_cals cs r d.
+Proof. exact cap_of_cals_nonneg. Qed.
+
+Theorem C17_cap_any_time : forall cs : nat -> cal Z,
+  (forall r, aligned_cal (cs r)) ->
+  forall r t v, units Z.add Z.sub Z.mul Z.div 0 Z.ltb (Z.eqb 0) (cs r) t = Ok v ->
+                units Z.add Z.sub Z.mul Z.div 0 Z.ltb (Z.eqb 0) (cs r) t = Ok (cap_of_cals cs r (day_of t)).
+Proof. exact cap_of_cals_any_time. Qed.
+
+Theorem C17_cap_exact : forall cs : nat -> cal Z,
+  (forall r, aligned_cal (cs r)) -> (forall r, div_free (cs r)) ->
+  forall r t, units Z.add Z.sub Z.mul Z.div 0 Z.ltb (Z.eqb 0) (cs r) t = Ok (cap_of_cals cs r (day_of t)).
+Proof. exact cap_of_cals_exact. Qed.
+
+(* non-vacuity: (Mon-Fri 8 in January 2024 | 4 on Saturday 01-06) * 2 - 16 on the holiday 01-08 is
+   non-negative and day aligned; 00:00 and 15:30 of Tuesday 01-02 agree *)
+Example C17_cap_example :
+  nonneg_cal 0 Z.le cap_example /\ aligned_cal cap_example /\ div_free cap_example /\
+  zeval cap_example (DAY * 19724) = Ok (Some 16) /\
+  zeval cap_example (DAY * 19724 + 55800000000) = Ok (Some 16) /\
+  zeval cap_example (DAY * 19728 + 55800000000) = Ok (Some 8) /\
+  zeval cap_example (DAY * 19730 + 55800000000) = Ok (Some 0) /\
+  zunits cap_example (DAY * 19754) = Ok 2 /\
+  cap_of_cals (fun _ => cap_example) 0 19724 = 16.
+Proof.
+  split; [apply nonneg_zcalb_sound; vm_compute; reflexivity|].
+  split; [apply aligned_calb_sound; vm_compute; reflexivity|].
+  split; [apply div_freeb_sound; vm_compute; reflexivity|].
+  vm_compute. repeat split.
+Qed.
+
+(* the alignment condition is needed, separately for each bound: an end bound written as a midnight
+   (not aligned: the end is inclusive) and a start bound at noon both make two instants of one day
+   disagree - the input class probed by the robustness stream of C14 *)
+Example C17_bound_inside_day_breaks_day_function :
+  let c1 : cal Z := Fixed 8 None (Some (DAY * 19724)) in
+  let c2 : cal Z := Weekly (Some (DAY * 19724 + 43200000000)) None [8;8;8;8;8;0;0] in
+  (nonneg_cal 0 Z.le c1 /\ ~ aligned_cal c1 /\
+   zunits c1 (DAY * 19724 + 1) = Ok 0 /\ zunits c1 (day_start (DAY * 19724 + 1)) = Ok 8) /\
+  (nonneg_cal 0 Z.le c2 /\ ~ aligned_cal c2 /\
+   zunits c2 (DAY * 19724 + 46800000000) = Ok 8 /\ zunits c2 (day_start (DAY * 19724 + 46800000000)) = Ok 0).
+Proof.
+  split.
+  - split; [apply nonneg_zcalb_sound; vm_compute; reflexivity|].
+    split; [intros [_ H]; vm_compute in H; discriminate|]. vm_compute. split; reflexivity.
+  - split; [apply nonneg_zcalb_sound; vm_compute; reflexivity|].
+    split; [intros [H _]; vm_compute in H; discriminate|]. vm_compute. split; reflexivity.
+Qed.
+
 Print Assumptions C17_sum.
 Print Assumptions C17_mul.
 Print Assumptions C17_sub.
@@ -171,3 +318,24 @@ Print Assumptions C17_search_forward.
 Print Assumptions C17_search_backward.
 Print Assumptions C17_search_fails_exactly.
 Print Assumptions C17_example.
+Print Assumptions C17_eval_nonneg.
+Print Assumptions C17_units_nonneg.
+Print Assumptions C17_accepted_fixed_nonneg.
+Print Assumptions C17_accepted_weekly_days_nonneg.
+Print Assumptions C17_accepted_weekly_dict_nonneg.
+Print Assumptions C17_accepted_dated_nonneg.
+Print Assumptions C17_accepted_set_units_nonneg.
+Print Assumptions C17_accepted_binop_nonneg.
+Print Assumptions C17_day_function.
+Print Assumptions C17_units_day_function.
+Print Assumptions C17_same_day.
+Print Assumptions C17_total.
+Print Assumptions C17_eval_nonneg_Z.
+Print Assumptions C17_units_nonneg_Z.
+Print Assumptions C17_eval_nonneg_Q.
+Print Assumptions C17_units_nonneg_Q.
+Print Assumptions C17_cap_nonneg.
+Print Assumptions C17_cap_any_time.
+Print Assumptions C17_cap_exact.
+Print Assumptions C17_cap_example.
+Print Assumptions C17_bound_inside_day_breaks_day_function.
